@@ -384,6 +384,13 @@ func (s *state) visitFunction(node *ast.FunctionNode) {
 	}
 
 	switch node.Name {
+	case "isFirst", "isLast", "index":
+		if s.scope.loopindex() == "" {
+			s.errorf("%v() may only be called inside a loop", node.Name)
+		}
+	}
+
+	switch node.Name {
 	case "isFirst":
 		// TODO: Add compile-time check that this is only called on loop variable.
 		s.js("(", s.scope.loopindex(), " == 0)")
